@@ -1,9 +1,15 @@
 import json
 props = {
+ "C01": ("H-CLUSTER", "seeded search over kill / graceful-stop / restart plans of workers and of the job (biased to the windows around the one-minute checkpoint ticks and the deploy phase) under a seeded interleaving of every goroutine, RPC and clock advance of a real job + 1-3 real workers; oracle: self-verifying keyed state (per key and split: count + digest of the records folded in) checked on every handler invocation, final checkpoint read back independently = fold of the complete input", "5.C01"),
+ "C04": ("H-CLUSTER", "failure-free seeded search over batching parameters, handler latencies and schedules (time-out vs size flush, asynchronous KeyEventBatch completion order, back-pressure); oracle: every record exactly once at the owner in per-split key order (count/digest state), per-stream delivery log: no record beyond the reported position ahead of a barrier, none below it behind", "5.C04"),
+ "C05": ("H-CLUSTER", "multi-party agreement under the key-group swarm: every record is processed by the operator whose independently computed range contains MurmurHash3-32(key) mod G (independent implementation), everything persisted is stored under that group, reported ranges are contiguous, disjoint, covering, sizes differ by at most one", "5.C05"),
+ "C14": ("H-CLUSTER", "seeded search over the moment a savepoint is requested (idle, while a periodic checkpoint is pending, twice), then kill everything, delete all working storage, restart from the savepoint URI with the same or another worker count and feed the rest of the input; oracle: at most one checkpoint in flight, C01's self-verifying state afterwards, positions restored = positions in the snapshot", "5.C14"),
+ "C15": ("H-CLUSTER", "seeded search over register / deregister / kill / partition / job-restart plans with standby workers; safety oracle from the deploy log (exactly WorkerCount registered members, consistent member lists), bounded liveness: after the last fault, within 30 simulated minutes the input is consumed and a checkpoint covering it is published", "5.C15"),
+ "C16": ("H-CLUSTER", "parts (a) and (b): per-stream delivery log against the positions each runner reported for each checkpoint; each split has exactly one reader per assembly and after a recovery resumes at the position decoded independently from the published snapshot. Part (c) (Kinesis shard lineage) is not covered by this check", "5.C16"),
  "C02": ("H-OP", "seeded search over interleavings of 1-4 concurrent sender streams (events, watermarks, barriers at per-sender positions, 1-3 consecutive checkpoints) with the operator's event loop, batch time-outs, handler latency and DKV background tasks; oracle: at every acknowledgement exactly the pre-barrier events have been applied, and the acknowledged checkpoint, read back independently, holds exactly their state and pending timers", "5.C02"),
  "C03": ("H-OP", "seeded search over histories of handler-returned puts/deletes over adversarial subject keys / namespaces / entry keys, batchings and flush/compaction timings; oracle: on every handler invocation the supplied state equals the shadow map exactly", "5.C03"),
  "C06": ("H-OP", "seeded search over rescales M->N (1-4 each) through the real Assembly.Deploy with every permutation of the recorded operator checkpoints, operators replaced or redeployed in place, state in memtable/flushed/compacted; oracle: reference handler after the restore (state, timers at the new owner, exactly once) + independent read-back of the next checkpoints", "5.C06"),
- "C11": ("H-OP", "part (b) of the property: seeded search over interleavings of 1-4 senders' watermark messages with events; oracle: the watermark the handler is told is the minimum of the upstreams' latest processed watermarks (unreported = epoch), no timer later than it fires. Part (a), the source runner's own watermark, is checked by the cluster harness when registered", "5.C11"),
+ "C11": ("H-OP + H-CLUSTER", "part (b), H-OP: seeded search over interleavings of 1-4 senders' watermark messages with events; oracle: the watermark the handler is told is the minimum of the upstreams' latest processed watermarks (unreported = epoch), no timer later than it fires. Part (a), H-CLUSTER: every real source runner's watermark per stream never decreases, stays below the largest timestamp it has keyed, and 30 simulated seconds after its last record equals that timestamp minus 1ns", "5.C11"),
  "C17": ("H-DKV-LOW", "seeded generation of entry runs and WAL histories against a slice model, with the simulator owning the restart between write and read (reopen from JSON descriptor) and the Truncate-vs-writer interleaving; weakest fit for the technique, stated in DESIGN.md", "5.C17"),
  "C12": ("H-STORE", "seeded search over create/savepoint/ack sequences (duplicates, wrong ids, foreign senders) interleaved with the asynchronous publication goroutines and store restarts; oracle: reference checkpoint state machine + independent decoding of every published snapshot", "5.C12"),
  "C13": ("H-STORE", "seeded search over chains of completed checkpoints (ids on base64 alphabet boundaries) with a crash after any storage operation and overlapping asynchronous write/remove/notify steps; oracle: restart resumes from the highest id decodable in storage, newest snapshot never removed, retention notifications monotone", "5.C13"),
